@@ -4,7 +4,7 @@ From Coq Require Import Extraction ExtrOcamlBasic.
 From CgnsV Require Import Goto Gen_C11 Mirror Gen_C04.
 Extraction Language OCaml.
 Set Extraction KeepSingleton.
-Extraction "extracted/c04/model.ml" Mirror.empty_parent Mirror.link_at Mirror.write_inplace_stale Gen_C04.general_write_mentions_cache Mirror.goto_children Mirror.link_writer_ok Mirror.bad_link_parents Mirror.copy_keeps_links Gen_C04.link_parents Gen_C04.link_calls Gen_C04.link_assigns Gen_C04.copy_link_guard Gen_C04.copy_else_recurses Gen_C04.copy_callers Mirror.write Mirror.write_inplace Mirror.delete Mirror.reopen Mirror.view_session
+Extraction "extracted/c04/model.ml" Mirror.empty_parent Mirror.link_at Mirror.zconn_arm_keeps_current Mirror.data_sizes_ok Gen_C04.data_size_rows Mirror.link_new Mirror.write_inplace_stale Gen_C04.general_write_mentions_cache Mirror.goto_children Mirror.link_writer_ok Mirror.bad_link_parents Mirror.copy_keeps_links Gen_C04.link_parents Gen_C04.link_calls Gen_C04.link_assigns Gen_C04.copy_link_guard Gen_C04.copy_else_recurses Gen_C04.copy_callers Mirror.write Mirror.write_inplace Mirror.delete Mirror.reopen Mirror.view_session
   Mirror.view_file Mirror.disp_of Mirror.disp_lab Mirror.sound_kinds Mirror.unsound_kinds Mirror.reserved_names
   Mirror.shadowed Mirror.positions_without_block Mirror.parents_without_block Mirror.positions_with_children Mirror.all_positions
   Mirror.candidate_kinds Mirror.delete_table_ok Mirror.write_table_ok Mirror.addr_tails_ok Mirror.bad_dblocks
